@@ -22,7 +22,7 @@ type Case struct {
 
 func setup() {
 	c := ev.C()
-	c.Rule = "multi-session Modify histories over in-process streams: 1-3 SINGLE_PRIMARY sessions (RIB-ack or FIB-ack), batches of 1-8 model-aimed operations over all five tables (held operations that later resolve or fail, empty and unknown network instance names, operations from non-primary sessions, wrong stamps), hand-over of the primary role between sessions while operations are held, operation ids counted per session from 1 so they overlap across sessions. Oracle over the whole history per stream, collected up to a barrier after every request: no result for an id that was not sent on that stream; per id the result sequence is one of [FAILED], [RIB_PROGRAMMED], [RIB_PROGRAMMED,FIB_PROGRAMMED] (FIB only if negotiated, never first, never a verdict twice, never failure and success); an operation without result must be held in the model, or its stream ended, or its session lost the primary role; with FIB ack every RIB ack is followed by its FIB ack; plus the RIB relation model and held-set hook after every request. Non-trivial = a held operation resolved or failed later, or a hand-over happened with >=1 operation held, or a request contained an empty/unknown network instance; distinct by FNV-64 of the case JSON."
+	c.Rule = "multi-session Modify histories over in-process streams: 1-3 SINGLE_PRIMARY sessions (RIB-ack or FIB-ack), batches of 1-8 model-aimed operations over all five tables (held operations that later resolve or fail, empty and unknown network instance names, operations from non-primary sessions, wrong stamps), hand-over of the primary role between sessions while operations are held, operation ids counted per session from 1 so they overlap across sessions; plus dependency graphs in disturbed arrival orders sent by one elected session (held chains, dependencies deleted while waited for, doomed held REPLACEs). Oracle over the whole history per stream, collected up to a barrier after every request: no result for an id that was not sent on that stream; per id the result sequence is one of [FAILED], [RIB_PROGRAMMED], [RIB_PROGRAMMED,FIB_PROGRAMMED] (FIB only if negotiated, never first, never a verdict twice, never failure and success); an operation without result must be held in the model, or its stream ended, or its session lost the primary role; with FIB ack every RIB ack is followed by its FIB ack; plus the RIB relation model and held-set hook after every request. Non-trivial = a held operation resolved or failed later, or a hand-over happened with >=1 operation held, or a request contained an empty/unknown network instance; distinct by FNV-64 of the case JSON."
 	c.Assumptions = []string{"on fail-over the previous primary's held operations are dropped (gribi.proto: the server SHOULD stop processing them and MUST NOT answer them to the acquiring primary)"}
 }
 
@@ -252,6 +252,47 @@ func TestCampaign(t *testing.T) {
 			if mass {
 				v.Class("mass-resolution")
 			}
+			col.Check(rt, ev.JSON(c), v)
+		})
+	})
+	t.Run("dependency-graphs", func(t *testing.T) {
+		// one elected session sends the operations of a dependency graph in a disturbed order
+		// (held chains, dependencies deleted while waited for, doomed held REPLACEs), packed into
+		// requests of 1-6: every operation must get exactly one verdict unless the model holds it
+		rapid.Check(t, func(rt *rapid.T) {
+			if rapid.IntRange(0, 1).Draw(rt, "run?") != 0 {
+				return
+			}
+			h := hgen.DrawGraph(rt)
+			fib := int32(rapid.IntRange(0, 1).Draw(rt, "fib"))
+			id := gen.ID128{Lo: 3}
+			sc := sess.Script{FwdRefs: h.FwdRefs}
+			sc.Steps = append(sc.Steps, sess.Step{S: 0, K: "params", P: &sess.ParamSpec{Red: 1, Persist: 1, Ack: fib}}, sess.Step{S: 0, K: "elec", ID: &id})
+			var ops []*gen.Op
+			flush := func() {
+				if len(ops) > 0 {
+					sc.Steps = append(sc.Steps, sess.Step{S: 0, K: "ops", Ops: ops})
+					ops = nil
+				}
+			}
+			size := rapid.IntRange(1, 6).Draw(rt, "batch")
+			for _, st := range h.Steps {
+				if st.Op == nil {
+					continue
+				}
+				o := *st.Op
+				stamp := id
+				o.Elec = &stamp
+				ops = append(ops, &o)
+				if len(ops) >= size {
+					flush()
+					size = rapid.IntRange(1, 6).Draw(rt, "batch")
+				}
+			}
+			flush()
+			c := Case{Script: sc}
+			v := runCase(c)
+			v.Class("dependency-graph")
 			col.Check(rt, ev.JSON(c), v)
 		})
 	})
